@@ -536,17 +536,18 @@ class Spec:
 # compare a key with anything but another key (e.g. with an internal sentinel)
 
 class StrictKey:
+    # the attribute name is deliberately unusual: boltons' sentinel objects have a ``name`` attribute of their own
     def __init__(self, name):
-        self.name = name
+        self.strict_key_ident = name
 
     def __hash__(self):
-        return hash(self.name)
+        return hash(self.strict_key_ident)
 
     def __eq__(self, other):
-        return self.name == other.name          # AttributeError for anything that is not a StrictKey
+        return self.strict_key_ident == other.strict_key_ident   # AttributeError for anything that is not a StrictKey
 
     def __repr__(self):
-        return 'StrictKey(%r)' % self.name
+        return 'StrictKey(%r)' % self.strict_key_ident
 
 
 def strict_shard(arg):
@@ -578,9 +579,13 @@ def strict_shard(arg):
         for i, op in enumerate(hist):
             try:
                 if op[0] == 'copy':
-                    c2 = c.copy()
+                    try:
+                        c2 = c.copy()
+                    except Exception as e:
+                        t.bad('C02|strict-keys|op:copy|raised', case, 'an equal independent cache', type(e).__name__)
+                        break
                     r_i = ('ok', None)
-                    got = {k.name: v for k, v in dict.items(c2)}
+                    got = {k.strict_key_ident: v for k, v in dict.items(c2)}
                     if got != ref.contents():
                         t.bad('C02|strict-keys|op:copy|contents', case, ref.contents(), got)
                         break
@@ -589,11 +594,11 @@ def strict_shard(arg):
                     continue
                 r_i = impl_apply(c, tr(op))
                 if op[0] == 'popitem' and r_i[0] == 'ok':
-                    r_i = ('ok', (r_i[1][0].name, r_i[1][1]))
+                    r_i = ('ok', (r_i[1][0].strict_key_ident, r_i[1][1]))
             except Exception as e:           # an exception escaping the guarded apply (should not happen)
                 r_i = ('exc', type(e).__name__)
             r_m = ref.apply(op, r_i)
-            got = {getattr(k, 'name', k): v for k, v in dict.items(c)}
+            got = {getattr(k, 'strict_key_ident', k): v for k, v in dict.items(c)}
             if r_i != r_m:
                 t.bad('C02|strict-keys|op:%s|result' % op[0], case, r_m, r_i)
                 break
